@@ -11,8 +11,7 @@
         Stronger than the class test alone: when the decidable premise ON THE INPUT of a theorem of
         Properties/C15out.v holds (tau-star: no_keyword_predicate; natural, mu: no_keyword_front; gamma,
         completion: the input theory is outside the classes) an output that is not fed back is a
-        counterexample even if it lies in a recorded class; an output in a recorded class that IS fed
-        back is a counterexample too (the classes are exact), and so is an output of natural that is fed
+        counterexample even if it lies in a recorded class; so is an output of natural that is fed
         back although no_keyword_front fails (C15_natural_output_F7b_iff).
      sem_fol_output_reparses_strict   the same without the class exclusion (known-finding replay).
 
@@ -93,18 +92,14 @@ let sem_output ~(strict : bool) (e : Sexp.t) : Sexp.t =
     let cls = M.FolClass.known_class_theory t in
     let cls_sexp = match cls with Some c -> of_str c | None -> A "none" in
     if verdict = L [ A "ok" ] then
-      (* fed back.  The recorded classes are meant to be EXACT (every member fails): a member that is fed
-         back means the class test of Model/FolClass.v is too wide, i.e. the exclusions of the theorems
-         exclude more than the defects. *)
-      (match cls with
-       | Some _ when not strict ->
-         L [ A "cex"; L [ A "output-in-a-recorded-class-but-fed-back-unchanged" ];
-             L [ A "printed"; printed ]; L [ A "class"; cls_sexp ] ]
-       | _ ->
-         if (not strict) && natural_outside_premise cmd (str txt) then
-           L [ A "cex"; L [ A "no_keyword_front-fails-but-the-output-of-natural-is-fed-back"; A "C15_natural_output_F7b_iff" ];
-               L [ A "printed"; printed ] ]
-         else L [ A "ok"; A "1" ])
+      (* fed back.  (An output in a recorded class can be fed back: the class F7b is a sound
+         over-approximation -- a keyword-prefixed function constant behind an opening parenthesis that the
+         printer keeps, `(notc$i - I$i) * 0 != X`, is classified but read back correctly; about 1 case in
+         200 000.)  For natural the premise is exact and its outputs have no such parentheses. *)
+      if (not strict) && natural_outside_premise cmd (str txt) then
+        L [ A "cex"; L [ A "no_keyword_front-fails-but-the-output-of-natural-is-fed-back"; A "C15_natural_output_F7b_iff" ];
+            L [ A "printed"; printed ]; L [ A "class"; cls_sexp ] ]
+      else L [ A "ok"; A "1" ]
     else
       (match (if strict then None else promised cmd (str txt)) with
        | Some thm ->
@@ -219,7 +214,19 @@ let sem_node ~(strict : bool) (e : Sexp.t) : Sexp.t =
            L [ A "printed"; printed ]; L [ A "tree"; tree ] ])
   | e -> bad "sem_asp_node_roundtrip: %s" (to_string e)
 
+(* fol_output_promised: (<command> "text") -> (promised "<theorem>") | (none)
+   the theorem of Properties/C15out.v whose premise on the INPUT holds (used by props/C15base.py on the
+   real binary: promised => the printed output must be a fixed point of `parse --as theory`) *)
+let fol_output_promised (e : Sexp.t) : Sexp.t =
+  match e with
+  | L [ cmd; (S _ as txt) ] ->
+    (match promised cmd (str txt) with
+     | Some thm -> L [ A "promised"; of_str (cl_of_string thm) ]
+     | None -> L [ A "none" ])
+  | e -> bad "fol_output_promised: %s" (to_string e)
+
 let () =
+  Ops.register "fol_output_promised" fol_output_promised;
   Ops.register "fol_output_reparses" fol_output_reparses;
   Ops.register "sem_fol_output_reparses" (sem_output ~strict:false);
   Ops.register "sem_fol_output_reparses_strict" (sem_output ~strict:true);
